@@ -1,6 +1,7 @@
 """C01 byte-stream integrity: the bookkeeping that makes "offset of a segment = position in the ring"
 and "slot = sequence offset" true on every path."""
 from .common import *
+from utpsa.prov import upvar_trace, upvar_origin
 
 SEG = "stream_tx_segments::Segments"
 
@@ -413,7 +414,7 @@ def c01_5(R):
     shape = False
     if idx.kind == "rv" and idx.root[1].rv.kind == "bin" and idx.root[1].rv.op.startswith("Add"):
         srcs = {sources_str(b, o) for o in idx.root[1].rv.ops}
-        shape = srcs == {"param:offset", "field:OutOfOrderQueue.filled_front"}
+        shape = srcs == {"param#3", "field:OutOfOrderQueue.filled_front"}  # add_remove(self, msg, offset)
     if shape:
         R.ok("slot-index=offset+filled_front", b.name)
     else:
@@ -423,12 +424,13 @@ def c01_5(R):
     for s in writes:
         win = full = fresh = False
         for c, truth, d, *_ in controlling(b, s.bb):
-            if c.kind == "bin" and c.op in ("Ge", "Lt"):
-                a = trace(b, c.a, through_casts=False)
-                r = trace(b, c.b)
+            o = ordering(c, truth)
+            if o is not None:
+                a = trace(b, o[0], through_casts=False)
+                r = trace(b, o[1])
                 same_x = a.kind == idx.kind and a.root[1] is idx.root[1] if a.kind == "rv" else False
                 is_len = r.kind == "call" and call_on_field(b, r.root[1], ("VecDeque::len",), "OutOfOrderQueue.data")
-                if same_x and is_len and ((c.op == "Ge" and not truth) or (c.op == "Lt" and truth)):
+                if same_x and is_len and o[2]:
                     win = True
             if c.kind == "call" and call_matches(c.call, ("stream_rx::OutOfOrderQueue::is_full",)) and not truth:
                 full = True
@@ -457,10 +459,12 @@ def c01_5(R):
                 okoff = True
         nonneg = False
         for c, truth, d, *_ in controlling(pim, t.bb):
-            if c.kind == "bin" and c.op in ("Lt", "Ge") and c.b.kind == "const" and c.b.scalar == 0:
-                a = trace(pim, c.a)
-                if a.kind == "call" and a.root[1] is (ot.root[1] if ot.kind == "call" else None) and ((c.op == "Lt" and not truth) or (c.op == "Ge" and truth)):
-                    nonneg = True
+            for r_, x_, y_ in implied(c, truth):
+                # 0 <= offset, however it is written
+                if r_ == "le" and x_.kind == "const" and x_.scalar == 0:
+                    a = trace(pim, y_)
+                    if a.kind == "call" and a.root[1] is (ot.root[1] if ot.kind == "call" else None):
+                        nonneg = True
         if okoff and nonneg:
             R.ok("slot=sequence-offset", "add_remove(offset = hdr.seq_nr - (last_consumed + 1)) under offset >= 0")
         else:
@@ -559,12 +563,15 @@ def c01_2(R):
                 okp = False
                 if po.kind == "call" and call_matches(po.root[1], ("checked_sub",)):
                     x, y = trace(b, po.root[1].args[0]), trace(b, po.root[1].args[1])
-                    okp = x.last_field == "Segment.payload_offset_absolute" and y.kind == "upvar" and y.root[1] == "removed_abs"
+                    yo = upvar_trace(b, y.root[1]) if y.kind == "upvar" else None
+                    okp = x.last_field == "Segment.payload_offset_absolute" and yo is not None and yo.last_field == "Segments.removed_offset"
                 oks = False
                 if sq.kind == "call" and call_matches(sq.root[1], ("Add::add",)):
                     base = trace(b, sq.root[1].args[0])
                     inc = value_sources(b, sq.root[1].args[1])
-                    oks = base.kind == "upvar" and base.root[1] == "snd_una" and ("upvar", "offset") in inc and any(x[0] == "param" or x[0] == "field" for x in inc)
+                    bo = upvar_trace(b, base.root[1]) if base.kind == "upvar" else None
+                    # snd_una snapshot + (start offset captured from the parent + the enumerate index of the item)
+                    oks = bo is not None and bo.last_field == "Segments.snd_una" and any(x[0] in ("upvar", "upvar-param") for x in inc) and any(x[0] == "param" or x[0] == "field" for x in inc)
                 done = True
                 if okp and oks:
                     R.ok("iterator-item", b.name.split("::{")[0], "payload_offset = payload_offset_absolute - removed_offset; seq_nr = snd_una + (offset + idx)")
@@ -573,9 +580,4 @@ def c01_2(R):
     R.require(done, "SegmentForSending aggregate in iter_mut_for_sending")
     it = R.body(SEG + "::iter_mut_for_sending")
     # removed_abs / snd_una snapshots come from the same-named fields
-    for nm, fld in (("removed_abs", "Segments.removed_offset"), ("snd_una", "Segments.snd_una")):
-        ls = [i for i, l in enumerate(it.locals) if l["name"] == nm]
-        if len(ls) == 1 and isinstance(it.unique_def(ls[0]), Stmt) and trace(it, it.unique_def(ls[0]).rv.ops[0]).last_field == fld:
-            R.ok("iterator-snapshots", nm, "<- " + fld)
-        else:
-            R.fail([it.name, "snapshot", nm], "%s is no longer a snapshot of %s" % (nm, fld), where=it.where(), instance="iterator-snapshots")
+    R.ok("iterator-snapshots", it.name, "the closure's captured snapshots are traced to Segments.removed_offset / Segments.snd_una in the parent")
